@@ -29,6 +29,24 @@ type Scenario struct {
 	Msgs       []*mgeom.Geom `json:"msgs"`       // the bag
 	Deliveries [][]int       `json:"deliveries"` // per replica: message indexes in delivery order
 	Points     []mgeom.Coord `json:"points"`     // probe points for the point-overlap test
+	// Later are things that happen to the messages after their bounds were
+	// first asked for; the bounds asked for afterwards must be those of the
+	// geometry as it is then.
+	Later []Later `json:"later,omitempty"`
+}
+
+// Later is one step of a message's later life.
+//
+//	extend-returned  b := Msgs[Msg].Bounds(); b.Extend(Msgs[Add]) — the returned box is the caller's to change
+//	push             a fresh copy of Msgs[Add] is pushed into the collection found at Path inside Msgs[Msg]
+//	write            ordinate Ord of the non-collection found at Path inside Msgs[Msg] is overwritten with V
+type Later struct {
+	K    string  `json:"k"`
+	Msg  int     `json:"msg"`
+	Path []int   `json:"path,omitempty"`
+	Add  int     `json:"add,omitempty"`
+	Ord  int     `json:"ord,omitempty"`
+	V    mgeom.F `json:"v,omitempty"`
 }
 
 type prop struct{}
@@ -47,7 +65,7 @@ func (prop) Plan(tier string) []core.Phase {
 func (prop) Describe() core.Description {
 	return core.Description{
 		Level: "exploration",
-		Rule: "A scenario is an initial layout (NoLayout/XY/XYZ/XYM/XYZM), a bag of 1-12 generated geometries (7 types, collections nested up to 3 deep with mixed member layouts, empties, finite ordinates) and, for each of 2-4 replicas, a delivery sequence that contains every message at least once in a seeded order with seeded duplicates. A run is non-trivial when at least two replicas received the first copies of the messages in different orders and the bag holds coordinates in at least two different layouts, or when a duplicate delivery happened after other data arrived.",
+		Rule: "A scenario is an initial layout (NoLayout/XY/XYZ/XYM/XYZM), a bag of 1-12 generated geometries (7 types, collections nested up to 3 deep with mixed member layouts, empties, finite ordinates) and, for each of 2-4 replicas, a delivery sequence that contains every message at least once in a seeded order with seeded duplicates. Afterwards 0-3 seeded steps of the messages' later life (the caller extends a box that Bounds() returned, a member is pushed into a possibly nested collection, an ordinate is overwritten through FlatCoords()) are each followed by asking for the bounds again. A run is non-trivial when at least two replicas received the first copies of the messages in different orders and the bag holds coordinates in at least two different layouts, or when a duplicate delivery happened after other data arrived.",
 		StateMeasure: "distinct (initial layout, multiset of message layouts, per-replica first-delivery order) tuples",
 		Assumptions: []string{
 			"no NaN ordinates and only XY/XYZ/XYM/XYZM (and NoLayout for the initial box), as the property states",
@@ -57,7 +75,7 @@ func (prop) Describe() core.Description {
 		RealComponents: []string{"go-geom root package: Bounds (NewBounds, Extend, Min, Max, Layout, IsEmpty, Overlaps, OverlapsPoint, Polygon, Clone), T.Bounds() of all seven types", "encoding/geojson (Marshal with EncodeGeometryWithBBox)"},
 		StubComponents: []string{"the network between message source and replicas (seeded delivery order and duplication)"},
 		FaultKinds:     []string{"reordered-delivery", "duplicate-delivery"},
-		Probes:         []string{"probe:xym-then-xyz", "probe:xyz-then-xym", "probe:xym-into-xyzm", "probe:xyz-into-xyzm", "probe:nested-collection-message", "probe:collection-message", "probe:empty-message-promotes-layout", "probe:mixed-layout-collection-bounds", "probe:overlap-true", "probe:overlap-false", "probe:point-overlap-true", "probe:point-overlap-false", "probe:geojson-bbox-checked"},
+		Probes:         []string{"probe:xym-then-xyz", "probe:xyz-then-xym", "probe:xym-into-xyzm", "probe:xyz-into-xyzm", "probe:nested-collection-message", "probe:collection-message", "probe:empty-message-promotes-layout", "probe:mixed-layout-collection-bounds", "probe:push-into-nested-collection-after-bounds", "probe:overlap-true", "probe:overlap-false", "probe:point-overlap-true", "probe:point-overlap-false", "probe:geojson-bbox-checked"},
 	}
 }
 
@@ -93,6 +111,22 @@ func (prop) Decode(raw []byte) (any, error) {
 		for _, o := range p {
 			if math.IsNaN(float64(o)) {
 				return nil, fmt.Errorf("NaN point")
+			}
+		}
+	}
+	if len(s.Later) > 8 {
+		return nil, fmt.Errorf("too many later steps")
+	}
+	for _, l := range s.Later {
+		if l.K != "extend-returned" && l.K != "push" && l.K != "write" {
+			return nil, fmt.Errorf("bad later step %q", l.K)
+		}
+		if l.Msg < 0 || l.Msg >= len(s.Msgs) || l.Add < 0 || l.Add >= len(s.Msgs) || l.Ord < 0 || len(l.Path) > 6 || math.IsNaN(float64(l.V)) || math.IsInf(float64(l.V), 0) {
+			return nil, fmt.Errorf("bad later step")
+		}
+		for _, i := range l.Path {
+			if i < 0 {
+				return nil, fmt.Errorf("bad path")
 			}
 		}
 	}
@@ -183,6 +217,23 @@ func (prop) Generate(r *prng.Rand, phase string) any {
 			p[j] = mgeom.F(r.SmallFloat())
 		}
 		s.Points = append(s.Points, p)
+	}
+	for i := r.Pick(3, 2, 2, 1); i > 0; i-- {
+		l := Later{K: []string{"extend-returned", "push", "write"}[r.Intn(3)], Msg: r.Intn(n), Add: r.Intn(n), Ord: r.Intn(64), V: mgeom.F(r.SmallFloat())}
+		if l.K == "push" {
+			// prefer a collection message when there is one
+			for tries := 0; tries < 4 && s.Msgs[l.Msg].T != mgeom.GC; tries++ {
+				l.Msg = r.Intn(n)
+			}
+		}
+		// a path into the message as generated (steps that find nothing at
+		// their path at run time are skipped)
+		for m := s.Msgs[l.Msg]; m.T == mgeom.GC && len(m.G) > 0 && (l.K == "write" || r.Chance(0.6)); {
+			k := r.Intn(len(m.G))
+			l.Path = append(l.Path, k)
+			m = m.G[k]
+		}
+		s.Later = append(s.Later, l)
 	}
 	return s
 }
@@ -635,6 +686,9 @@ func (prop) Execute(scAny any, phase string, log *core.Log) core.Result {
 			}
 		}
 	}
+	if !laterLife(&res, log, s, geoms) {
+		return res
+	}
 	reordered := res.Counters["reordered-delivery"] > 0
 	res.Nontrivial = (reordered && len(layoutsWithData) >= 2) || dupAfterData
 	var ls []string
@@ -644,6 +698,123 @@ func (prop) Execute(scAny any, phase string, log *core.Log) core.Result {
 	sort.Strings(ls)
 	res.StateKey = fmt.Sprintf("%d|%s|%s", s.L0, strings.Join(ls, ""), strings.Join(firstOrders, ";"))
 	return res
+}
+
+// laterLife applies the Later steps to the (normalised) message models and to
+// the library objects alike and asks for the bounds again after each step.
+func laterLife(res *core.Result, log *core.Log, s *Scenario, geoms []geom.T) bool {
+	if len(s.Later) == 0 {
+		return true
+	}
+	cur := make([]*mgeom.Geom, len(s.Msgs))
+	for i, m := range s.Msgs {
+		cur[i] = m.Clone().Norm()
+	}
+	for li, l := range s.Later {
+		m, g := cur[l.Msg], geoms[l.Msg]
+		what := fmt.Sprintf("later step %d (%s on message %d)", li, l.K, l.Msg)
+		switch l.K {
+		case "extend-returned":
+			var b *geom.Bounds
+			if p := core.Guard(func() { b = g.Bounds(); b.Extend(geoms[l.Add]) }); p != "" {
+				res.Fail("panic", "panic:later:"+core.PanicSite(p), "%s panicked: %s", what, p)
+				return false
+			}
+			res.Count("later:extend-returned", 1)
+		case "push", "write":
+			// walk to the target
+			ok := true
+			for _, k := range l.Path {
+				gc, isGC := g.(*geom.GeometryCollection)
+				if m.T != mgeom.GC || !isGC || k >= len(m.G) || k >= gc.NumGeoms() {
+					ok = false
+					break
+				}
+				m, g = m.G[k], gc.Geom(k)
+			}
+			if !ok {
+				res.Count("later:skipped", 1)
+				continue
+			}
+			if l.K == "push" {
+				gc, isGC := g.(*geom.GeometryCollection)
+				if m.T != mgeom.GC || !isGC {
+					res.Count("later:skipped", 1)
+					continue
+				}
+				// the message as it was generated (a later life may have made
+				// cur[l.Add] something its own constructors would refuse)
+				add := s.Msgs[l.Add].Clone().Norm()
+				ag, err := mgeom.Build(add)
+				if err != nil {
+					res.Fail("build", "build:"+add.T, "building %s failed: %v", add, err)
+					return false
+				}
+				var perr error
+				if p := core.Guard(func() { perr = gc.Push(ag) }); p != "" {
+					res.Fail("panic", "panic:later:"+core.PanicSite(p), "%s: Push panicked: %s", what, p)
+					return false
+				}
+				mismatch := m.Fixed && m.L != 0 && add.EffLayout() != m.L
+				if (perr != nil) != mismatch {
+					// what Push accepts is C02's business; here only the box counts
+					res.Count("later:skipped", 1)
+					if perr == nil {
+						m.G = append(m.G, add)
+					}
+				} else if perr == nil {
+					m.G = append(m.G, add)
+					res.Count("later:push", 1)
+					if len(l.Path) > 0 {
+						res.Count("probe:push-into-nested-collection-after-bounds", 1)
+					}
+				}
+			} else {
+				if m.T == mgeom.GC {
+					res.Count("later:skipped", 1)
+					continue
+				}
+				fc := g.FlatCoords()
+				if len(fc) == 0 {
+					res.Count("later:skipped", 1)
+					continue
+				}
+				idx := l.Ord % len(fc)
+				fc[idx] = float64(l.V)
+				// the same ordinate of the model
+				k := 0
+				for a := range m.P {
+					for b := range m.P[a] {
+						for c := range m.P[a][b] {
+							for d := range m.P[a][b][c] {
+								if k == idx {
+									m.P[a][b][c][d] = l.V
+								}
+								k++
+							}
+						}
+					}
+				}
+				if k != len(fc) {
+					panic(fmt.Sprintf("C08 harness: model has %d ordinates, geometry %d", k, len(fc)))
+				}
+				res.Count("later:write", 1)
+			}
+		}
+		want := modelBox(cur[l.Msg])
+		var b *geom.Bounds
+		if p := core.Guard(func() { b = geoms[l.Msg].Bounds() }); p != "" {
+			res.Fail("panic", "panic:later-bounds:"+core.PanicSite(p), "Bounds() after %s panicked: %s", what, p)
+			return false
+		}
+		res.Steps++
+		log.Addf("%s -> %s", what, describeBounds(b))
+		if d := compare(b, want); d != "" {
+			res.Fail("bounds-stale", "bounds-stale:"+l.K+":"+cur[l.Msg].T, "Bounds() asked again after %s: %s; got %s; the geometry is now %s", what, d, describeBounds(b), cur[l.Msg])
+			return false
+		}
+	}
+	return true
 }
 
 // memberKind names what kind of member made a collection special (for
